@@ -1,7 +1,6 @@
 package ledger
 
 import (
-	"errors"
 	"fmt"
 
 	"github.com/uptrace/bun"
@@ -45,7 +44,7 @@ func (h logsResourceHandler) ResolveFilter(_ common.ResourceQuery[any], operator
 }
 
 func (h logsResourceHandler) Expand(_ common.ResourceQuery[any], _ string) (*bun.SelectQuery, *common.JoinCondition, error) {
-	return nil, nil, errors.New("no expand supported")
+	return nil, nil, common.NewErrInvalidQuery("no expand supported")
 }
 
 func (h logsResourceHandler) Project(_ common.ResourceQuery[any], selectQuery *bun.SelectQuery) (*bun.SelectQuery, error) {
